@@ -12,7 +12,7 @@ import (
 )
 
 func init() {
-	register("C13", c13Stable, c13Append, c13Accumulate, c13Release, c13Len, c13Remainder, c13Window, c13Alias, c13TailPtr, c13WriterReset, c13CopyNode, c13ReadLen, c13AbortFirst)
+	register("C13", c13Stable, c13Append, c13Accumulate, c13Release, c13Len, c13Remainder, c13Window, c13Alias, c13TailPtr, c13WriterReset, c13CopyNode, c13ReadLen, c13AbortFirst, c13Cursors)
 }
 
 const pkgStd = Mod + "/pkg/network/standard"
@@ -221,7 +221,7 @@ func c13Append(e *Env) {
 				}
 				k++
 				key := fmt.Sprintf("Conn.%s:%s-write#%d", name, v.Name(), k)
-				ok := as.Tok.String() == "+=" && ((v == malloc && inFamily[name]) || (v == off && name == "Skip"))
+				ok := as.Tok.String() == "+=" && ((v == malloc && (inFamily[name] || inFamily[fi.Obj.Name()])) || (v == off && name == "Skip"))
 				r.Check(ok, rule, key, w.Pos(as.Pos()), "offsets only advance: malloc += n in fill, off += n in Skip", "`"+types.ExprString(l)+" "+as.Tok.String()+" …` in "+name+" moves a buffer offset in a way that can expose stale or drop unread bytes")
 			}
 			return true
